@@ -41,6 +41,9 @@ type c01Faulty struct {
 	f     *c01Faults
 	log   *[]string
 	name  string
+	// elements of a composite resource (IncMap, HashMap) always answer PreCommit through a channel, as a mailbox or a
+	// 2PC cell would, so that the composite has several non-trivial answers to combine
+	nonTrivial bool
 }
 
 func (w *c01Faulty) Abort(iface distsys.ArchetypeInterface) chan struct{} {
@@ -55,7 +58,12 @@ func (w *c01Faulty) PreCommit(iface distsys.ArchetypeInterface) chan error {
 		ch <- distsys.ErrCriticalSectionAborted
 		return ch
 	}
-	return w.inner.PreCommit(iface)
+	ch := w.inner.PreCommit(iface)
+	if ch == nil && w.nonTrivial {
+		ch = make(chan error, 1)
+		ch <- nil
+	}
+	return ch
 }
 func (w *c01Faulty) Commit(iface distsys.ArchetypeInterface) chan struct{} {
 	*w.log = append(*w.log, "commit:"+w.name)
@@ -136,7 +144,10 @@ func c01Ints(tag string, n int) []tla.Value {
 	return out
 }
 
-func c01NewCell(kind string) c01Model {
+func c01NewCell(kind string, faults *c01Faults, log *[]string) c01Model {
+	elem := func(name string, r distsys.ArchetypeResource) distsys.ArchetypeResource {
+		return &c01Faulty{inner: r, f: faults, log: log, name: name, nonTrivial: true}
+	}
 	switch kind {
 	case "local":
 		init := c01Ints("init", 1)
@@ -159,7 +170,7 @@ func c01NewCell(kind string) c01Model {
 			}
 			s := distsys.NewLocalArchetypeResource(init[i])
 			subs[index.AsString()] = s
-			return s
+			return elem("incmap.elem"+index.AsString(), s)
 		})
 		return &c01Cell{kind: kind, res: r, committed: init, working: append([]tla.Value{}, init...), nidx: 2,
 			direct: func(i int) (tla.Value, bool) {
@@ -173,8 +184,8 @@ func c01NewCell(kind string) c01Model {
 		init := c01Ints("init", 2)
 		hm := hashmap.New[distsys.ArchetypeResource]()
 		s0, s1 := distsys.NewLocalArchetypeResource(init[0]), distsys.NewLocalArchetypeResource(init[1])
-		hm.Set(c01Keys[0], s0)
-		hm.Set(c01Keys[1], s1)
+		hm.Set(c01Keys[0], elem("hashmap.elem0", s0))
+		hm.Set(c01Keys[1], elem("hashmap.elem1", s1))
 		r := NewHashMap(hm)
 		subs := []*distsys.LocalArchetypeResource{s0, s1}
 		return &c01Cell{kind: kind, res: r, committed: init, working: append([]tla.Value{}, init...), nidx: 2,
@@ -317,7 +328,7 @@ func (m *c01File) checkCommitted(tag string) {
 	}
 }
 
-func c01New(kind string) c01Model {
+func c01New(kind string, faults *c01Faults, log *[]string) c01Model {
 	switch kind {
 	case "inputchan":
 		return c01NewInput()
@@ -326,7 +337,7 @@ func c01New(kind string) c01Model {
 	case "file":
 		return c01NewFile()
 	}
-	return c01NewCell(kind)
+	return c01NewCell(kind, faults, log)
 }
 
 // ---------------- the archetype
@@ -346,7 +357,7 @@ func c01Run(kinds []string, K int, faultBudget int) {
 	var refParams []string
 	names := []string{"r0", "r1", "r2"}
 	for i, k := range kinds {
-		m := c01New(k)
+		m := c01New(k, faults, &log)
 		models = append(models, m)
 		cfg = append(cfg, distsys.EnsureArchetypeRefParam(names[i], &c01Faulty{inner: m.resource(), f: faults, log: &log, name: names[i]}))
 		refParams = append(refParams, "A."+names[i])
